@@ -100,8 +100,21 @@ pub mod thread {
 /// `std::cell` with the interior-mutability types wrapped: every access is announced to a function
 /// the harness installs (a scheduling point), so that cells which the crate shares between threads
 /// behind an `unsafe impl Sync` are interleaved like atomics. Without an installed function the
-/// types behave exactly like std's.
+/// types behave exactly like std's. Feature `plain_cells` switches the wrapping off (std's types,
+/// no points): the fallback when a source tree does not compile against the wrappers, e.g. because it
+/// uses the `LocalKey<Cell<T>>::get / set` shorthands that only exist for std's own `Cell`.
+#[cfg(feature = "plain_cells")]
 pub mod cell {
+    pub use ::std::cell::*;
+    pub const WRAPPED: bool = false;
+    pub fn install_point(_f: fn(&'static str)) -> bool {
+        true
+    }
+}
+
+#[cfg(not(feature = "plain_cells"))]
+pub mod cell {
+    pub const WRAPPED: bool = true;
     pub use ::std::cell::{BorrowError, BorrowMutError, LazyCell, OnceCell, Ref, RefMut};
     use ::std::sync::atomic::{AtomicUsize, Ordering};
 
